@@ -166,7 +166,7 @@ class C16(Prop):
                     nh = nh0 + (1 if a[0] in ("copy", "or", "ror", "ctor") else 0)
                     for b in self.atom_ops(SMALL_NAMES, ["1", ""], min(nh, 2)):
                         yield {"ops": [s, a, b], "kind": "exh3"}
-        nrand = 60000 if deep else 2500
+        nrand = 60000 if deep else 6000
         for _ in range(nrand):
             n = rng.randint(3, 30)
             ops = []
